@@ -10,6 +10,7 @@ package concurrent
 
 import (
 	"bytes"
+	"context"
 	"errors"
 	"fmt"
 	"os"
@@ -99,11 +100,19 @@ func TestVerifBounded_C19_Races(t *testing.T) {
 		crashed := ""
 		for attempt := 0; attempt < 20 && time.Now().Before(deadline) && crashed == ""; attempt++ {
 			cases++
-			cmd := exec.Command(os.Args[0], "-test.run", "^TestVerifBounded_C19_Races$")
+			ctx, cancel := context.WithTimeout(context.Background(), 60*time.Second)
+			cmd := exec.CommandContext(ctx, os.Args[0], "-test.run", "^TestVerifBounded_C19_Races$")
 			cmd.Env = append(os.Environ(), "VERIF_C19_MAP_CHILD=1")
 			var buf bytes.Buffer
 			cmd.Stdout, cmd.Stderr = &buf, &buf
-			if err := cmd.Run(); err != nil {
+			err := cmd.Run()
+			timedOut := ctx.Err() != nil
+			cancel()
+			if timedOut {
+				// a child that did not finish in a minute on a loaded machine decides nothing
+				continue
+			}
+			if err != nil {
 				out := buf.String()
 				switch {
 				case strings.Contains(out, "send on closed channel"):
